@@ -32,14 +32,14 @@ structure Frame (w w' : World) : Prop where
   rc : ∀ k, k < w.nextId → alGet k w'.rendererCache = alGet k w.rendererCache
   cc : ∀ k, k < w.nextId → alGet k w'.ctxCache = alGet k w.ctxCache
   ca : ∀ k, k < w.nextId → alGet k w'.childAttrs = alGet k w.childAttrs
-  prov : w'.provideCache = w.provideCache ∧ w'.provideRefs = w.provideRefs ∧ w'.allRefIds = w.allRefIds ∧ w'.cap = w.cap
+  prov : w'.provideCache = w.provideCache ∧ w'.provideRefs = w.provideRefs ∧ w'.allRefIds = w.allRefIds
   hrc : ∀ k, w'.nextId ≤ k → alGet k w'.rendererCache = none
   hcc : ∀ k, w'.nextId ≤ k → alGet k w'.ctxCache = none
   hca : ∀ k, w'.nextId ≤ k → alGet k w'.childAttrs = none
   good : (∀ k cc, alGet k w.ctxCache = some cc → GoodC cc) → ∀ k cc, alGet k w'.ctxCache = some cc → GoodC cc
 
 theorem Frame.refl {w : World} (hw : WInv w) : Frame w w :=
-  ⟨Nat.le_refl _, fun _ _ => rfl, fun _ _ => rfl, fun _ _ => rfl, ⟨rfl, rfl, rfl, rfl⟩, hw.rc, hw.cc, hw.ca, fun h => h⟩
+  ⟨Nat.le_refl _, fun _ _ => rfl, fun _ _ => rfl, fun _ _ => rfl, ⟨rfl, rfl, rfl⟩, hw.rc, hw.cc, hw.ca, fun h => h⟩
 
 theorem Frame.trans {a b c : World} (h1 : Frame a b) (h2 : Frame b c) : Frame a c where
   next := Nat.le_trans h1.next h2.next
@@ -47,9 +47,9 @@ theorem Frame.trans {a b c : World} (h1 : Frame a b) (h2 : Frame b c) : Frame a 
   cc := fun k hk => by rw [h2.cc k (Nat.lt_of_lt_of_le hk h1.next), h1.cc k hk]
   ca := fun k hk => by rw [h2.ca k (Nat.lt_of_lt_of_le hk h1.next), h1.ca k hk]
   prov := by
-    obtain ⟨a1, a2, a3, a4⟩ := h1.prov
-    obtain ⟨b1, b2, b3, b4⟩ := h2.prov
-    exact ⟨b1.trans a1, b2.trans a2, b3.trans a3, b4.trans a4⟩
+    obtain ⟨a1, a2, a3⟩ := h1.prov
+    obtain ⟨b1, b2, b3⟩ := h2.prov
+    exact ⟨b1.trans a1, b2.trans a2, b3.trans a3⟩
   hrc := h2.hrc
   hcc := h2.hcc
   hca := h2.hca
@@ -57,12 +57,12 @@ theorem Frame.trans {a b c : World} (h1 : Frame a b) (h2 : Frame b c) : Frame a 
 
 theorem Frame.winv {w w' : World} (hw : WInv w) (h : Frame w w') : WInv w' :=
   ⟨by rw [h.prov.1]; exact hw.prov, h.hrc, h.hcc, h.hca,
-   fun k hk => by rw [h.prov.2.2.1]; exact hw.refs k (Nat.le_trans h.next hk), h.good hw.good⟩
+   fun k hk => by rw [h.prov.2.2]; exact hw.refs k (Nat.le_trans h.next hk), h.good hw.good⟩
 
 theorem Frame.of_bal {env : Env} {w w' : World} {ids : List Nat} (hw : WInv w) (hb : Bal env w w' ids) : Frame w w' := by
   have hlow : ∀ k, k < w.nextId → k ∉ ids := fun k hk hm => by have := (hb.range k hm).1; omega
   have hw' := hw.step hb
-  exact ⟨hb.next, fun k hk => hb.rc k (hlow k hk), fun k hk => hb.cc k (hlow k hk), fun k _ => hb.ca k, hb.prov,
+  exact ⟨hb.next, fun k hk => hb.rc k (hlow k hk), fun k hk => hb.cc k (hlow k hk), fun k _ => hb.ca k, ⟨hb.prov.1, hb.prov.2.1, hb.prov.2.2.1⟩,
     hw'.rc, hw'.cc, hw'.ca, fun _ => hw'.good⟩
 
 theorem Frame.left {a b w' : World} (h : core a = core b) (hf : Frame a w') : Frame b w' := by
@@ -72,7 +72,7 @@ theorem Frame.left {a b w' : World} (h : core a = core b) (hf : Frame a w') : Fr
   · rw [← h1, ← h3]; exact hf.rc
   · rw [← h1, ← h2]; exact hf.cc
   · rw [← h1, ← h4]; exact hf.ca
-  · rw [← h5, ← h6, ← h7, ← h8]; exact hf.prov
+  · rw [← h5, ← h6, ← h7]; exact hf.prov
   · exact hf.hrc
   · exact hf.hcc
   · exact hf.hca
@@ -85,7 +85,7 @@ theorem Frame.right {w a b : World} (h : core a = core b) (hf : Frame w a) : Fra
   · rw [← h3]; exact hf.rc
   · rw [← h2]; exact hf.cc
   · rw [← h4]; exact hf.ca
-  · rw [← h5, ← h6, ← h7, ← h8]; exact hf.prov
+  · rw [← h5, ← h6, ← h7]; exact hf.prov
   · rw [← h1, ← h3]; exact hf.hrc
   · rw [← h1, ← h2]; exact hf.hcc
   · rw [← h1, ← h4]; exact hf.hca
@@ -130,8 +130,110 @@ theorem linv_frame {env : Env} {w0 w : World} {Q : List QItem} (h0 : WInv w0) (h
   have hlow : ∀ k, k < w0.nextId → k ∉ chIds Q ++ opIds Q := fun k hk hm => by have := (hl.range k hm).1; omega
   have hlow1 : ∀ k, k < w0.nextId → k ∉ chIds Q := fun k hk hm => hlow k hk (List.mem_append_left _ hm)
   have hw := hl.winv h0
-  exact ⟨hl.next, fun k hk => hl.rc k (hlow1 k hk), fun k hk => hl.cc k (hlow k hk), fun k hk => hl.ca k (hlow1 k hk), hl.prov,
+  exact ⟨hl.next, fun k hk => hl.rc k (hlow1 k hk), fun k hk => hl.cc k (hlow k hk), fun k hk => hl.ca k (hlow1 k hk), ⟨hl.prov.1, hl.prov.2.1, hl.prov.2.2.1⟩,
     hw.rc, hw.cc, hw.ca, fun _ => hw.good⟩
+
+/-- reading a tag body for fills touches the capture list and the step counter only -/
+theorem frame_capsteps {w : World} (hw : WInv w) (cp : List Captured) (st : Nat) : Frame w { w with cap := cp, steps := st } :=
+  ⟨Nat.le_refl _, fun _ _ => rfl, fun _ _ => rfl, fun _ _ => rfl, ⟨rfl, rfl, rfl⟩, hw.rc, hw.cc, hw.ca, fun h => h⟩
+
+/-- what reading a body for fills may do to the world, whatever the outcome -/
+def ExtrW (w w' : World) : Prop := ∃ cp st, w' = { w with cap := cp, steps := st }
+
+theorem ExtrW.refl (w : World) : ExtrW w w := ⟨w.cap, w.steps, rfl⟩
+theorem ExtrW.trans {a b c : World} (h1 : ExtrW a b) (h2 : ExtrW b c) : ExtrW a c := by
+  obtain ⟨c1, s1, rfl⟩ := h1
+  obtain ⟨c2, s2, rfl⟩ := h2
+  exact ⟨c2, s2, rfl⟩
+
+theorem fillnode_any (env : Env) (n : Nat) (nm : Str) (dv : Option Str) (content : List Node) (ctx : Ctx) (w w' : World)
+    (r : Except Err (List Tok)) (hx : isExtracting ctx = true)
+    (h : (renderNode env n (.fill (.lit nm) dv none content) ctx).run.run w = (r, w')) : ExtrW w w' := by
+  cases n with
+  | zero => simp only [renderNode, run_throw] at h; rw [← snd_eq h]; exact ExtrW.refl w
+  | succ m =>
+    unfold renderNode at h
+    simp only [run_bind, run_get] at h
+    by_cases hst : w.steps ≥ env.maxSteps
+    · simp only [hst, if_true, run_throw] at h; rw [← snd_eq h]; exact ExtrW.refl w
+    · simp only [hst, if_false, run_set, hx, Bool.not_true, Bool.false_eq_true, ↓reduceIte, evalExpr, run_pure] at h
+      cases dv with
+      | none =>
+        simp only [Option.isSome_none, Bool.false_and, Bool.false_eq_true, ↓reduceIte, run_pure, run_bind, run_modify] at h
+        rw [← snd_eq h]; exact ⟨_, _, rfl⟩
+      | some d =>
+        by_cases hid : isIdentifier d = true
+        · simp only [hid, Bool.not_true, Bool.false_eq_true, ↓reduceIte, run_pure, run_bind, Option.isSome_some, Bool.true_and,
+            decide_eq_true_eq, reduceCtorEq, run_modify] at h
+          rw [← snd_eq h]; exact ⟨_, _, rfl⟩
+        · simp only [hid, Bool.not_false, ↓reduceIte, run_bind, run_throw] at h
+          rw [← snd_eq h]; exact ⟨_, _, rfl⟩
+
+theorem extract_any (env : Env) : ∀ (n : Nat) (body : List Node) (ctx : Ctx) (w w' : World) (r : Except Err (List Tok)),
+    fbody body = true → isExtracting ctx = true →
+    (renderNodes env n body ctx).run.run w = (r, w') → ExtrW w w'
+  | 0, _, _, w, _, _, _, _, h => by simp only [renderNodes, run_throw] at h; rw [← snd_eq h]; exact ExtrW.refl w
+  | n + 1, [], ctx, w, w', r, _, _, h => by simp only [renderNodes, run_pure] at h; rw [← snd_eq h]; exact ExtrW.refl w
+  | n + 1, nd :: rest, ctx, w, w', r, hb, hx, h => by
+    cases nd with
+    | fill nameE dataVar defaultVar content =>
+      cases nameE with
+      | var p => simp [fbody] at hb
+      | lit nm =>
+        cases defaultVar with
+        | some d => simp [fbody] at hb
+        | none =>
+          simp only [fbody, Bool.and_eq_true] at hb
+          simp only [renderNodes, run_bind] at h
+          rcases h1 : (renderNode env n (.fill (.lit nm) dataVar none content) ctx).run.run w with ⟨r1, w1⟩
+          have e1 := fillnode_any env n nm dataVar content ctx w w1 r1 hx h1
+          rw [h1] at h
+          cases r1 with
+          | error e => simp only at h; rw [← snd_eq h]; exact e1
+          | ok a =>
+            simp only at h
+            rcases h2 : (renderNodes env n rest ctx).run.run w1 with ⟨r2, w2⟩
+            have e2 := extract_any env n rest ctx w1 w2 r2 hb.2 hx h2
+            rw [h2] at h
+            cases r2 with
+            | error e => simp only at h; rw [← snd_eq h]; exact e1.trans e2
+            | ok b => simp only [run_pure] at h; rw [← snd_eq h]; exact e1.trans e2
+    | text _ => simp [fbody] at hb
+    | out _ => simp [fbody] at hb
+    | ifn _ _ _ => simp [fbody] at hb
+    | forn _ _ _ => simp [fbody] at hb
+    | withn _ _ _ => simp [fbody] at hb
+    | elem _ _ => simp [fbody] at hb
+    | slot _ _ _ _ _ => simp [fbody] at hb
+    | comp _ _ _ _ _ => simp [fbody] at hb
+    | provide _ _ _ => simp [fbody] at hb
+    | block _ _ => simp [fbody] at hb
+    | blockSuper => simp [fbody] at hb
+    | «extends» _ => simp [fbody] at hb
+    | includen _ => simp [fbody] at hb
+
+/-- `resolve_fills` that raises: only the capture list and the step counter may differ -/
+theorem resolveFills_err (env : Env) (n : Nat) (body : List Node) (ctx : Ctx) (w w' : World) (e : Err)
+    (hb : fbody body = true) (h : (resolveFills env n body ctx).run.run w = (.error e, w')) : ExtrW w w' := by
+  cases n with
+  | zero => simp only [resolveFills, run_throw] at h; rw [← snd_eq h]; exact ExtrW.refl w
+  | succ n =>
+    unfold resolveFills at h
+    cases body with
+    | nil => simp only [List.isEmpty_nil, ↓reduceIte, run_pure] at h; cases h
+    | cons nd rest =>
+      simp only [List.isEmpty_cons, Bool.false_eq_true, ↓reduceIte, run_bind, run_get, run_modify] at h
+      rcases h1 : (renderNodes env n (nd :: rest) (ctx ++ [[(fillGenKey, Val.fillGen)]])).run.run ({ w with cap := [] } : World) with ⟨r1, w1⟩
+      have e1 : ExtrW w w1 := (ExtrW.trans ⟨[], w.steps, rfl⟩ (extract_any env n (nd :: rest) _ _ w1 r1 hb (isExtracting_push ctx) h1))
+      rw [h1] at h
+      cases r1 with
+      | error e' => simp only at h; rw [← snd_eq h]; exact e1
+      | ok content =>
+        simp only [run_bind, run_get, run_modify] at h
+        obtain ⟨cp, st, rfl⟩ := e1
+        split at h
+        · simp only [run_pure] at h; cases h
+        · simp only [run_throw] at h; rw [← snd_eq h]; exact ⟨_, _, rfl⟩
 
 structure EStmt (env : Env) (n : Nat) : Prop where
   nodes : ∀ nodes ctx w e w', tnodes nodes = true → ctxFree ctx = true → WInv w →
@@ -140,10 +242,11 @@ structure EStmt (env : Env) (n : Nat) : Prop where
     (renderFor env n x items i body ctx).run.run w = (.error e, w') → Frame w w'
   node : ∀ nd ctx w e w', tnode nd = true → ctxFree ctx = true → WInv w →
     (renderNode env n nd ctx).run.run w = (.error e, w') → Frame w w'
-  tag : ∀ name kwargs only dyn ctx w e w', isDynName name = false → ctxFree ctx = true → WInv w →
-    (renderCompTag env n name kwargs only dyn [] ctx).run.run w = (.error e, w') → Frame w w'
-  impl : ∀ name kw o ctx w e w', isDynName name = false → ctxFree ctx = true → ctxFree o = true → slotFreeKvs kw = true → WInv w →
-    (renderImpl env n name kw [] (some o) ctx).run.run w = (.error e, w') → Frame w w'
+  tag : ∀ name kwargs only dyn body ctx w e w', isDynName name = false → fbody body = true → ctxFree ctx = true → WInv w →
+    (renderCompTag env n name kwargs only dyn body ctx).run.run w = (.error e, w') → Frame w w'
+  impl : ∀ name kw fills o ctx w e w', isDynName name = false → ctxFree ctx = true → ctxFree o = true → slotFreeKvs kw = true →
+    GoodFills fills → WInv w →
+    (renderImpl env n name kw fills (some o) ctx).run.run w = (.error e, w') → Frame w w'
   run : ∀ r k attrs w e w', GoodR env r k → WInv w →
     (runRenderer env n r attrs).run.run w = (.error e, w') → Frame w w'
   slot : ∀ nameE isRequired data body ctx w e w', tnodes body = true → ctxFree ctx = true → WInv w →
@@ -159,8 +262,8 @@ theorem estmt_zero (env : Env) : EStmt env 0 := by
   · intro nodes ctx w e w' _ _ hw h; simp only [renderNodes, run_throw] at h; obtain ⟨_, rfl⟩ := err_inj h; exact Frame.refl hw
   · intro x items i body ctx w e w' _ _ _ hw h; simp only [renderFor, run_throw] at h; obtain ⟨_, rfl⟩ := err_inj h; exact Frame.refl hw
   · intro nd ctx w e w' _ _ hw h; simp only [renderNode, run_throw] at h; obtain ⟨_, rfl⟩ := err_inj h; exact Frame.refl hw
-  · intro name kwargs only dyn ctx w e w' _ _ hw h; simp only [renderCompTag, run_throw] at h; obtain ⟨_, rfl⟩ := err_inj h; exact Frame.refl hw
-  · intro name kw o ctx w e w' _ _ _ _ hw h; simp only [renderImpl, run_throw] at h; obtain ⟨_, rfl⟩ := err_inj h; exact Frame.refl hw
+  · intro name kwargs only dyn body ctx w e w' _ _ _ hw h; simp only [renderCompTag, run_throw] at h; obtain ⟨_, rfl⟩ := err_inj h; exact Frame.refl hw
+  · intro name kw fills o ctx w e w' _ _ _ _ _ hw h; simp only [renderImpl, run_throw] at h; obtain ⟨_, rfl⟩ := err_inj h; exact Frame.refl hw
   · intro r k attrs w e w' _ hw h; simp only [runRenderer, run_throw] at h; obtain ⟨_, rfl⟩ := err_inj h; exact Frame.refl hw
   · intro nameE isRequired data body ctx w e w' _ _ hw h; simp only [renderSlot, run_throw] at h; obtain ⟨_, rfl⟩ := err_inj h; exact Frame.refl hw
   · intro Q parts out w0 w e w' h0 hl _ _ h; simp only [postRender, run_throw] at h; obtain ⟨_, rfl⟩ := err_inj h; exact linv_frame h0 hl
@@ -241,10 +344,9 @@ theorem estmt_node (env : Env) (hlib : GoodLib env) (n : Nat) (ih : EStmt env n)
         · exact Frame.left hcore (ih.nodes body ctx _ e w' ht hc hw1 h1)
         · simp only [run_pure] at h; cases h
     | comp name kwargs only dyn body =>
-      simp only [tnode, Bool.and_eq_true, List.isEmpty_iff, Bool.not_eq_true'] at ht
+      simp only [tnode, Bool.and_eq_true, Bool.not_eq_true'] at ht
       obtain ⟨hb, hd⟩ := ht
-      subst hb
-      exact Frame.left hcore (ih.tag name kwargs only dyn ctx _ e w' hd hc hw1 h)
+      exact Frame.left hcore (ih.tag name kwargs only dyn body ctx _ e w' hd hb hc hw1 h)
     | slot nameE isDefault isRequired data body =>
       simp only [tnode, Bool.and_eq_true, Bool.not_eq_true'] at ht
       obtain ⟨hdf, hb⟩ := ht
@@ -261,41 +363,47 @@ theorem estmt_slot (env : Env) (n : Nat) (ih : EStmt env n) :
     ∀ nameE isRequired data body ctx w e w', tnodes body = true → ctxFree ctx = true → WInv w →
     (renderSlot env (n + 1) nameE false isRequired data body ctx).run.run w = (.error e, w') → Frame w w' := by
   intro nameE isRequired data body ctx w e w' hb hc hw h
-  rcases slot_unfolds env n nameE isRequired data body ctx w hc hw with ⟨e', he⟩ | he | ⟨c3, hc3, _, he⟩
+  rcases slot_unfolds env n nameE isRequired data body ctx w hc hw with ⟨e', he⟩ | he | ⟨cid, cc, c3, _, hcc, hc3, hcase⟩
   · rw [he] at h
     obtain ⟨_, rfl⟩ := err_inj h
     exact Frame.refl hw
   · rw [he] at h; cases h
-  · rw [he] at h
-    exact ih.nodes body c3 w e w' hb hc3 hw h
+  · rcases hcase with ⟨_, _, he⟩ | ⟨f, hf, he⟩
+    · rw [he] at h
+      exact ih.nodes body c3 w e w' hb hc3 hw h
+    · rw [he] at h
+      obtain ⟨k', hmem⟩ := sGet_mem _ _ f hf
+      have hgf : GoodFill f := (hw.good cid cc hcc).1 (k', f) hmem
+      exact ih.nodes f.nodes c3 w e w' hgf.1 hc3 hw h
 
 theorem estmt_tag (env : Env) (n : Nat) (ih : EStmt env n) :
-    ∀ name kwargs only dyn ctx w e w', isDynName name = false → ctxFree ctx = true → WInv w →
-    (renderCompTag env (n + 1) name kwargs only dyn [] ctx).run.run w = (.error e, w') → Frame w w' := by
-  intro name kwargs only dyn ctx w e w' hd hc hw h
+    ∀ name kwargs only dyn body ctx w e w', isDynName name = false → fbody body = true → ctxFree ctx = true → WInv w →
+    (renderCompTag env (n + 1) name kwargs only dyn body ctx).run.run w = (.error e, w') → Frame w w' := by
+  intro name kwargs only dyn body ctx w e w' hd hb hc hw h
   unfold renderCompTag at h
   cases hext : isExtracting ctx with
   | true => simp only [hext, ↓reduceIte, run_pure] at h; cases h
   | false =>
-    simp only [hext, Bool.false_eq_true, ↓reduceIte, run_bind] at h
+    simp only [hext, Bool.false_eq_true, ↓reduceIte] at h
     cases hf : findDef env name with
     | none =>
-      simp only [hf, hd, Bool.false_eq_true, ↓reduceIte, run_throw] at h
+      simp only [hf, hd, Bool.false_eq_true, ↓reduceIte, run_bind, run_throw] at h
       obtain ⟨_, rfl⟩ := err_inj h; exact Frame.refl hw
     | some d =>
-      simp only [hf, run_pure] at h
-      cases n with
-      | zero =>
-        simp only [resolveFills, run_throw] at h
-        obtain ⟨_, rfl⟩ := err_inj h; exact Frame.refl hw
-      | succ m =>
-        unfold resolveFills at h
-        simp only [List.isEmpty_nil, ↓reduceIte, run_pure] at h
-        refine ih.impl name (evalKwargs ctx kwargs) ctx _ w e w' hd ?_ hc (evalKwargs_free ctx hc kwargs) hw h
-        split
-        · exact ctxFree_isolatedCopy ctx hc
-        · exact hc
-
+      simp only [hf] at h
+      rcases bind_err _ _ _ _ _ h with hres | ⟨fills, w1, hres, h⟩
+      · obtain ⟨cp, st, rfl⟩ := resolveFills_err env n body ctx w w' e hb hres
+        exact frame_capsteps hw cp st
+      · cases n with
+        | zero => simp only [resolveFills, run_throw] at hres; cases hres
+        | succ m =>
+          obtain ⟨hgf, st, rfl⟩ := resolveFills_ok env m body ctx w w1 fills hb hc hres
+          have hcore : core ({ w with steps := st } : World) = core w := rfl
+          refine Frame.left hcore (ih.impl name (evalKwargs ctx kwargs) fills ctx _ _ e w' hd ?_ hc (evalKwargs_free ctx hc kwargs) hgf
+            (WInv.of_core hcore.symm hw) h)
+          split
+          · exact ctxFree_isolatedCopy ctx hc
+          · exact hc
 
 /-- the world in which `_render_impl` raised before it queued its renderer: at most the new `ComponentContext` entry -/
 theorem frame_reg (w w' : World) (hw : WInv w) (cc : Option CompCtx) (hcc : ∀ c, cc = some c → GoodC c)
@@ -313,7 +421,7 @@ theorem frame_reg (w w' : World) (hw : WInv w) (cc : Option CompCtx) (hcc : ∀ 
     | none => rfl
     | some c => exact alGet_alSet_ne _ _ _ _ (by omega)
   · intro k _; rw [e4]
-  · exact ⟨e5, e6, e7, e8⟩
+  · exact ⟨e5, e6, e7⟩
   · intro k hk; rw [e3]; exact hw.rc k (by omega)
   · intro k hk
     rw [e2]
@@ -349,9 +457,10 @@ theorem loop_root_err (env : Env) (n : Nat) (ih : EStmt env n) (w w1 w' : World)
   exact ih.loop _ [] [] w w1 e w' hw hl partsOk_nil rfl h
 
 theorem estmt_impl (env : Env) (hlib : GoodLib env) (n : Nat) (ih : EStmt env n) :
-    ∀ name kw o ctx w e w', isDynName name = false → ctxFree ctx = true → ctxFree o = true → slotFreeKvs kw = true → WInv w →
-    (renderImpl env (n + 1) name kw [] (some o) ctx).run.run w = (.error e, w') → Frame w w' := by
-  intro name kw o ctx w e w' hd hc ho hkw hw h
+    ∀ name kw fills o ctx w e w', isDynName name = false → ctxFree ctx = true → ctxFree o = true → slotFreeKvs kw = true →
+    GoodFills fills → WInv w →
+    (renderImpl env (n + 1) name kw fills (some o) ctx).run.run w = (.error e, w') → Frame w w' := by
+  intro name kw fills o ctx w e w' hd hc ho hkw hgf hw h
   rw [renderImpl_succ] at h
   generalize parentOf ctx = par at h
   unfold implBody at h
@@ -366,11 +475,11 @@ theorem estmt_impl (env : Env) (hlib : GoodLib env) (n : Nat) (ih : EStmt env n)
          · rename_i a wt ht
            obtain ⟨g, rfl⟩ := tick_ok _ _ _ _ _ ht
            obtain ⟨_, rfl⟩ := err_inj h
-           exact frame_reg w _ hw (some _) (fun c hc' => by injection hc' with hc'; rw [← hc']; exact good_cc name w.nextId _ o ho) rfl rfl rfl rfl hw.prov.symm rfl rfl rfl
+           exact frame_reg w _ hw (some _) (fun c hc' => by injection hc' with hc'; rw [← hc']; exact good_cc name w.nextId _ fills o hgf ho) rfl rfl rfl rfl hw.prov.symm rfl rfl rfl
          · rename_i e2 wt ht
            obtain ⟨_, rfl⟩ := err_inj h
            have hc2 := tick_err _ _ _ _ _ ht
-           exact Frame.of_core_eq hc2 (frame_reg w _ hw (some _) (fun c hc' => by injection hc' with hc'; rw [← hc']; exact good_cc name w.nextId _ o ho) rfl rfl rfl rfl hw.prov.symm rfl rfl rfl))
+           exact Frame.of_core_eq hc2 (frame_reg w _ hw (some _) (fun c hc' => by injection hc' with hc'; rw [← hc']; exact good_cc name w.nextId _ fills o hgf ho) rfl rfl rfl rfl hw.prov.symm rfl rfl rfl))
     | some p =>
       simp only [run_bind, run_genId, run_get] at h
       cases hpc : alGet p w.ctxCache with
@@ -385,11 +494,11 @@ theorem estmt_impl (env : Env) (hlib : GoodLib env) (n : Nat) (ih : EStmt env n)
         · rename_i a wt ht
           obtain ⟨g, rfl⟩ := tick_ok _ _ _ _ _ ht
           obtain ⟨_, rfl⟩ := err_inj h
-          exact frame_reg w _ hw (some _) (fun c hc' => by injection hc' with hc'; rw [← hc']; exact good_cc name w.nextId _ o ho) rfl rfl rfl rfl hw.prov.symm rfl rfl rfl
+          exact frame_reg w _ hw (some _) (fun c hc' => by injection hc' with hc'; rw [← hc']; exact good_cc name w.nextId _ fills o hgf ho) rfl rfl rfl rfl hw.prov.symm rfl rfl rfl
         · rename_i e2 wt ht
           obtain ⟨_, rfl⟩ := err_inj h
           have hc2 := tick_err _ _ _ _ _ ht
-          exact Frame.of_core_eq hc2 (frame_reg w _ hw (some _) (fun c hc' => by injection hc' with hc'; rw [← hc']; exact good_cc name w.nextId _ o ho) rfl rfl rfl rfl hw.prov.symm rfl rfl rfl)
+          exact Frame.of_core_eq hc2 (frame_reg w _ hw (some _) (fun c hc' => by injection hc' with hc'; rw [← hc']; exact good_cc name w.nextId _ fills o hgf ho) rfl rfl rfl rfl hw.prov.symm rfl rfl rfl)
   | some d =>
     have hgood := hlib d (findDef_mem env name d hf)
     have hgd := fun w' => getContextData_pure env w.nextId ctx kw d.data [] w' (pure_of_good d hgood.2)
@@ -403,12 +512,12 @@ theorem estmt_impl (env : Env) (hlib : GoodLib env) (n : Nat) (ih : EStmt env n)
         · rename_i a wt ht
           obtain ⟨g, rfl⟩ := tick_ok _ _ _ _ _ ht
           simp only [hgd, run_bind, run_pure, run_modify] at h
-          exact loop_root_err env n ih w _ w' e hw h _ _ (good_renderer env name kw ctx w.nextId d _ hc hkw hf hgood.2)
-            (good_cc name w.nextId _ o ho) rfl rfl rfl rfl hw.prov.symm rfl rfl rfl rfl
+          exact loop_root_err env n ih w _ w' e hw h _ _ (good_renderer env name kw ctx w.nextId d _ fills hc hkw hf hgood.2)
+            (good_cc name w.nextId _ fills o hgf ho) rfl rfl rfl rfl hw.prov.symm rfl rfl rfl rfl
         · rename_i e2 wt ht
           obtain ⟨_, rfl⟩ := err_inj h
           have hc2 := tick_err _ _ _ _ _ ht
-          exact Frame.of_core_eq hc2 (frame_reg w _ hw (some _) (fun c hc' => by injection hc' with hc'; rw [← hc']; exact good_cc name w.nextId _ o ho) rfl rfl rfl rfl hw.prov.symm rfl rfl rfl)
+          exact Frame.of_core_eq hc2 (frame_reg w _ hw (some _) (fun c hc' => by injection hc' with hc'; rw [← hc']; exact good_cc name w.nextId _ fills o hgf ho) rfl rfl rfl rfl hw.prov.symm rfl rfl rfl)
       | false =>
         simp only [run_bind, run_genId, hd, hf, hrc, Bool.false_eq_true, ↓reduceIte, Bool.not_false, run_pure, Option.isNone_none,
           Bool.true_and, Bool.and_self, Bool.and_false, Option.isSome_none, run_modify, registerRefW, hw.prov, List.isEmpty_nil] at h
@@ -416,12 +525,12 @@ theorem estmt_impl (env : Env) (hlib : GoodLib env) (n : Nat) (ih : EStmt env n)
         · rename_i a wt ht
           obtain ⟨g, rfl⟩ := tick_ok _ _ _ _ _ ht
           simp only [hgd, run_bind, run_pure, run_modify] at h
-          exact loop_root_err env n ih w _ w' e hw h _ _ (good_renderer env name kw ctx w.nextId d _ hc hkw hf hgood.2)
-            (good_cc name w.nextId _ o ho) rfl rfl rfl rfl hw.prov.symm rfl rfl rfl rfl
+          exact loop_root_err env n ih w _ w' e hw h _ _ (good_renderer env name kw ctx w.nextId d _ fills hc hkw hf hgood.2)
+            (good_cc name w.nextId _ fills o hgf ho) rfl rfl rfl rfl hw.prov.symm rfl rfl rfl rfl
         · rename_i e2 wt ht
           obtain ⟨_, rfl⟩ := err_inj h
           have hc2 := tick_err _ _ _ _ _ ht
-          exact Frame.of_core_eq hc2 (frame_reg w _ hw (some _) (fun c hc' => by injection hc' with hc'; rw [← hc']; exact good_cc name w.nextId _ o ho) rfl rfl rfl rfl hw.prov.symm rfl rfl rfl)
+          exact Frame.of_core_eq hc2 (frame_reg w _ hw (some _) (fun c hc' => by injection hc' with hc'; rw [← hc']; exact good_cc name w.nextId _ fills o hgf ho) rfl rfl rfl rfl hw.prov.symm rfl rfl rfl)
     | some p =>
       simp only [run_bind, run_genId, run_get] at h
       cases hpc : alGet p w.ctxCache with
@@ -440,11 +549,11 @@ theorem estmt_impl (env : Env) (hlib : GoodLib env) (n : Nat) (ih : EStmt env n)
         · rename_i e2 wt ht
           obtain ⟨_, rfl⟩ := err_inj h
           have hc2 := tick_err _ _ _ _ _ ht
-          exact Frame.of_core_eq hc2 (frame_reg w _ hw (some _) (fun c hc' => by injection hc' with hc'; rw [← hc']; exact good_cc name w.nextId _ o ho) rfl rfl rfl rfl hw.prov.symm rfl rfl rfl)
+          exact Frame.of_core_eq hc2 (frame_reg w _ hw (some _) (fun c hc' => by injection hc' with hc'; rw [← hc']; exact good_cc name w.nextId _ fills o hgf ho) rfl rfl rfl rfl hw.prov.symm rfl rfl rfl)
 
 
 theorem frame_events {w : World} (hw : WInv w) (evs : List Ev) (g : Nat) : Frame w { w with events := evs, gcds := g } :=
-  ⟨Nat.le_refl _, fun _ _ => rfl, fun _ _ => rfl, fun _ _ => rfl, ⟨rfl, rfl, rfl, rfl⟩, hw.rc, hw.cc, hw.ca, fun h => h⟩
+  ⟨Nat.le_refl _, fun _ _ => rfl, fun _ _ => rfl, fun _ _ => rfl, ⟨rfl, rfl, rfl⟩, hw.rc, hw.cc, hw.ca, fun h => h⟩
 
 theorem estmt_run (env : Env) (hlib : GoodLib env) (n : Nat) (ih : EStmt env n) :
     ∀ r k attrs w e w', GoodR env r k → WInv w →
@@ -590,9 +699,10 @@ theorem estmt_all (env : Env) (hlib : GoodLib env) : ∀ n, EStmt env n
 
 /-- **A render of the fragment that raises — wherever, for whatever reason — disturbs nothing that was there before.** -/
 theorem tree_failure_frame (env : Env) (hlib : GoodLib env) (n : Nat) (name : Str) (kwargs : List (Str × Expr)) (only dyn : Bool)
-    (ctx : Ctx) (w w' : World) (e : Err) (hd : isDynName name = false) (hc : ctxFree ctx = true) (hw : WInv w)
-    (h : (renderCompTag env n name kwargs only dyn [] ctx).run.run w = (.error e, w')) : Frame w w' :=
-  (estmt_all env hlib n).tag name kwargs only dyn ctx w e w' hd hc hw h
+    (body : List Node) (ctx : Ctx) (w w' : World) (e : Err) (hd : isDynName name = false) (hb : fbody body = true)
+    (hc : ctxFree ctx = true) (hw : WInv w)
+    (h : (renderCompTag env n name kwargs only dyn body ctx).run.run w = (.error e, w')) : Frame w w' :=
+  (estmt_all env hlib n).tag name kwargs only dyn body ctx w e w' hd hb hc hw h
 
 
 /-- the three-level example with a fault injected into its fourth callback (`get_context_data` of a leaf): the render
